@@ -4,14 +4,17 @@
   source shape is not recognised is `none` and nothing is claimed about it (the
   behaviour-level tie through Bio/Generated/Tables.lean and the correspondence
   run remains); a fact that IS extracted must agree with the model and with the
-  observed behaviour.  Re-checked by `decide` on every run.
+  observed behaviour.  `holdsIfFound o p` is `true` for `none` and `p x` for
+  `some x`; every theorem is closed by `decide` whichever it is.
 -/
+import Bio.Lemmas.SrcFacts
 import Bio.Generated.Src
 import Bio.Generated.Tables
 namespace Bio.SrcFacts
 open Bio.Generated
 
-/-- C01: the writer's line width constant is what was observed on its output. -/
-theorem fasta_width : ∀ w, Src.fastaTextLineLen = some w → w = 80 ∧ w = Generated.fastaLineLen := by decide
+/-- C01: the writer's line width constant is 80 and is what was observed on its output. -/
+theorem fasta_width :
+    holdsIfFound Src.fastaTextLineLen (fun w => w == 80 && w == Generated.fastaLineLen) = true := by decide
 
 end Bio.SrcFacts
